@@ -272,6 +272,11 @@ func (s *Service) handleBatchPickup(msg service.DIDCommMsg, myDID, theirDID stri
 		end = request.BatchSize
 	}
 
+	// a negative batch size is a request for nothing (it used to be a slice bounds panic in this goroutine)
+	if end < 0 {
+		end = 0
+	}
+
 	outbox.LastDeliveredTime = time.Now()
 	outbox.LastRemovedTime = time.Now()
 
